@@ -590,8 +590,8 @@ fn shrink(kind: Kind, start: &E) -> (E, u32) {
     (cur, used)
 }
 
-fn report_failure(rep: &mut Report, kind: Kind, original: &E, origin: &str) {
-    let (small, steps) = shrink(kind, original);
+fn report_failure(rep: &mut Report, kind: Kind, start: &E, found_as: &E, origin: &str) {
+    let (small, steps) = shrink(kind, start);
     let env = match fails(kind, &small) {
         Some(env) => env,
         None => return, // cannot happen: shrink only keeps failing cases
@@ -640,7 +640,7 @@ fn report_failure(rep: &mut Report, kind: Kind, original: &E, origin: &str) {
             "env": {"x": env[0], "y": env[1], "z": env[2]},
             "symbols": {"x": "positive", "y": "positive", "z": "unrestricted"},
             "observed": observed,
-            "found_as": original.prefix(),
+            "found_as": found_as.prefix(),
             "origin": origin,
             "shrink_steps": steps,
         }),
@@ -674,8 +674,7 @@ fn report_raw(rep: &mut Report, raw: HashMap<(Kind, u32), (u64, E)>, origin: &st
         seen.push(key);
         // `report_failure` shrinks again from the already shrunk form (a
         // fixed point) and fills in the details.
-        let _ = orig;
-        report_failure(rep, *kind, small, origin);
+        report_failure(rep, *kind, small, orig, origin);
     }
 }
 
@@ -856,7 +855,8 @@ const RULE: &str = "every expression tree of depth <= 2 over Add/Sub/Mul/Div/Div
 pub fn run(args: &Args) {
     let mut rep = Report::new("C11", "symcheck c11", args, RULE);
     rep.max_samples = 8;
-    rep.max_violations = 200;
+    rep.max_violations = 60;
+    rep.max_per_group = 20;
 
     if let Some(path) = &args.replay {
         replay(rep, path);
@@ -1020,7 +1020,7 @@ fn replay(mut rep: Report, path: &str) {
     let only = w["kind"].as_str().map(|s| s.to_string());
     for ((kind, _), (_, e)) in items {
         if only.as_deref().map(|k| k == kind.name()).unwrap_or(true) {
-            report_failure(&mut rep, kind, &e, "replay");
+            report_failure(&mut rep, kind, &e, &e, "replay");
         }
     }
     rep.evaluations = 1;
